@@ -58,6 +58,7 @@ type c09Unit struct {
 	Unit   int    `json:"unit"`
 	Signed []int  `json:"signed"`
 	Actual []int  `json:"actual"`
+	EOFD   bool   `json:"eofd"`   // the inner pool's readers hand over the last bytes of a file together with io.EOF
 	Mode   []int  `json:"mode"`   // [-1,0] copy until EOF | [i,n] block range
 	Result string `json:"result"` // ok | error
 	Out    []int  `json:"out"`    // delivered content as unit symbols (99 = ragged / unknown)
@@ -130,72 +131,80 @@ func cmdC09Unit(args []string) error {
 			modes = append(modes, []int{-2, j})
 		}
 		for _, ac := range actualSeqs {
-			for _, mode := range modes {
-				id++
-				if id%*stride != *phase {
-					continue
-				}
-				if sig == nil {
-					sd := filepath.Join(root, "signed")
-					os.RemoveAll(sd)
-					os.MkdirAll(sd, 0755)
-					os.WriteFile(filepath.Join(sd, "f"), expand(sg), 0644)
-					sig, c, err = signatureStream(sd)
+			for _, mode0 := range modes {
+				for _, eofd := range []bool{false, true} {
+					mode := mode0
+					id++
+					if id%*stride != *phase {
+						continue
+					}
+					if sig == nil {
+						sd := filepath.Join(root, "signed")
+						os.RemoveAll(sd)
+						os.MkdirAll(sd, 0755)
+						os.WriteFile(filepath.Join(sd, "f"), expand(sg), 0644)
+						sig, c, err = signatureStream(sd)
+						if err != nil {
+							return err
+						}
+					}
+					ad := filepath.Join(root, "actual")
+					os.RemoveAll(ad)
+					os.MkdirAll(ad, 0755)
+					os.WriteFile(filepath.Join(ad, "f"), expand(ac), 0644)
+					// eofd: the pool under the safekeeper reports io.EOF together with the last bytes of a file
+					var inner lake.Pool = fspool.New(c, ad)
+					if eofd {
+						inner = &eofPool{Pool: inner}
+					}
+					sk, err := newSafeKeeper(inner, sig)
 					if err != nil {
 						return err
 					}
-				}
-				ad := filepath.Join(root, "actual")
-				os.RemoveAll(ad)
-				os.MkdirAll(ad, 0755)
-				os.WriteFile(filepath.Join(ad, "f"), expand(ac), 0644)
-				sk, err := newSafeKeeper(fspool.New(c, ad), sig)
-				if err != nil {
-					return err
-				}
-				line := c09Unit{Id: id, Unit: unit, Signed: ints(sg), Actual: ints(ac), Mode: mode, Out: []int{}}
-				var outb bytes.Buffer
-				buf := make([]byte, 32*1024)
-				var rerr error
-				if mode[0] == -2 {
-					// lrufile.getChunk: Seek to the chunk, io.ReadFull of one chunk (a short last chunk is fine)
-					var rs io.ReadSeeker
-					rs, rerr = sk.GetReadSeeker(0)
-					if rerr == nil {
-						_, rerr = rs.Seek(int64(mode[1])*int64(unit), io.SeekStart)
-					}
-					if rerr == nil {
-						var n int
-						n, rerr = io.ReadFull(rs, buf[:unit])
-						if rerr == io.ErrUnexpectedEOF || rerr == io.EOF {
-							rerr = nil
+					line := c09Unit{Id: id, Unit: unit, Signed: ints(sg), Actual: ints(ac), Mode: mode, Out: []int{}, EOFD: eofd}
+					var outb bytes.Buffer
+					buf := make([]byte, 32*1024)
+					var rerr error
+					if mode[0] == -2 {
+						// lrufile.getChunk: Seek to the chunk, io.ReadFull of one chunk (a short last chunk is fine)
+						var rs io.ReadSeeker
+						rs, rerr = sk.GetReadSeeker(0)
+						if rerr == nil {
+							_, rerr = rs.Seek(int64(mode[1])*int64(unit), io.SeekStart)
 						}
-						outb.Write(buf[:n])
+						if rerr == nil {
+							var n int
+							n, rerr = io.ReadFull(rs, buf[:unit])
+							if rerr == io.ErrUnexpectedEOF || rerr == io.EOF {
+								rerr = nil
+							}
+							outb.Write(buf[:n])
+						}
+					} else if mode[0] == -1 {
+						// freshBowl.Transpose
+						var r io.Reader
+						r, rerr = sk.GetReader(0)
+						if rerr == nil {
+							_, rerr = io.CopyBuffer(struct{ io.Writer }{&outb}, r, buf)
+						}
+					} else {
+						// the REAL applier of a block range (wsync.ApplySingle, fail-fast) reading through the safekeeper
+						// (the output is a plain io.Writer as a bowl's entry writer is: a *bytes.Buffer would make io.CopyBuffer
+						// take its ReaderFrom shortcut and ignore the applier's buffer)
+						rerr = wsync.NewContext(int(pwr.BlockSize)).ApplySingle(struct{ io.Writer }{&outb}, sk, wsync.Operation{
+							Type: wsync.OpBlockRange, FileIndex: 0, BlockIndex: int64(mode[0]), BlockSpan: int64(mode[1])})
 					}
-				} else if mode[0] == -1 {
-					// freshBowl.Transpose
-					var r io.Reader
-					r, rerr = sk.GetReader(0)
-					if rerr == nil {
-						_, rerr = io.CopyBuffer(struct{ io.Writer }{&outb}, r, buf)
+					sk.Close()
+					line.Result = "ok"
+					if rerr != nil {
+						line.Result, line.Err = "error", rerr.Error()
+						if len(line.Err) > 160 {
+							line.Err = line.Err[:160]
+						}
 					}
-				} else {
-					// the REAL applier of a block range (wsync.ApplySingle, fail-fast) reading through the safekeeper
-					// (the output is a plain io.Writer as a bowl's entry writer is: a *bytes.Buffer would make io.CopyBuffer
-					// take its ReaderFrom shortcut and ignore the applier's buffer)
-					rerr = wsync.NewContext(int(pwr.BlockSize)).ApplySingle(struct{ io.Writer }{&outb}, sk, wsync.Operation{
-						Type: wsync.OpBlockRange, FileIndex: 0, BlockIndex: int64(mode[0]), BlockSpan: int64(mode[1])})
+					line.Out = toSyms(outb.Bytes())
+					w.emit(line)
 				}
-				sk.Close()
-				line.Result = "ok"
-				if rerr != nil {
-					line.Result, line.Err = "error", rerr.Error()
-					if len(line.Err) > 160 {
-						line.Err = line.Err[:160]
-					}
-				}
-				line.Out = toSyms(outb.Bytes())
-				w.emit(line)
 			}
 		}
 	}
